@@ -108,7 +108,7 @@ impl ToTokens for Expansion {
                         fields.is_empty().then_some((
                             format_ident!("__DISCRIMINANT_{ident}"),
                             (
-                                quote! { #last_discriminant + #inc },
+                                quote! { (#last_discriminant) + #inc },
                                 quote! { #ident #fields },
                             ),
                         ))
